@@ -182,6 +182,16 @@ class FaultyConnection:
         self.real.close()
 
 
+def fresh_sqlite_module():
+    """pygaps.parsing.sqlite re-executed: module-level state (e.g. a memo added by the code under test) left behind by an
+    earlier PATH of the exploration must not be mistaken for something that happened earlier in the explored scenario (every
+    path stands for a session of its own; what happened "earlier in the session" is part of the path, see warm_up in C08)"""
+    import importlib
+    import sys
+    import pygaps.parsing.sqlite      # noqa: F401
+    return importlib.reload(sys.modules['pygaps.parsing.sqlite'])
+
+
 @contextlib.contextmanager
 def faulty_sqlite(fault=None):
     """sqlite3.connect inside pygaps.parsing.sqlite returns FaultyConnection objects"""
